@@ -357,6 +357,13 @@ class DictV(V):
         k = z3.Const("k!dict", self.ksort)
         wit = fresh("wit", self.ksort)  # a non-empty container has a member
         fs = [self.card >= 0, z3.ForAll([k], z3.Implies(z3.Select(self.mem, k), self.card >= 1)), z3.Implies(self.card > 0, z3.Select(self.mem, wit))]
+        # values that are sets themselves (dict of sets, dict of registers): the same facts per key
+        if isinstance(self.layout, (SetL, RegL)):
+            esort = self.layout.esort if isinstance(self.layout, SetL) else I
+            x = z3.Const("x!dictset", esort)
+            smem, scard = self.cols[0], self.cols[1]
+            fs.append(z3.ForAll([k], z3.Select(scard, k) >= 0))
+            fs.append(z3.ForAll([k, x], z3.Implies(z3.Select(z3.Select(smem, k), x), z3.Select(scard, k) >= 1)))
         if self.stamp is not None:
             k2 = z3.Const("k2!dict", self.ksort)
             fs.append(z3.ForAll([k], z3.Implies(z3.Select(self.mem, k), z3.And(z3.Select(self.stamp, k) < self.nstamp, z3.Select(self.stamp, k) >= 0))))
